@@ -1,5 +1,12 @@
 import AFModel.Passing
+import AFModel.WidthCfg
+import AFModel.PassRoutes
+import AFModel.PassPlace
 import AFProofs.Lemmas.Persist
+import AFProofs.Lemmas.WidthCfg
+import AFProofs.Lemmas.PassRoutes
+import Mathlib.Algebra.Order.Field.Basic
+import Mathlib.Tactic.Linarith
 
 /-!
 # C12 — prior passing keeps every inferred value on its own parameter
@@ -208,5 +215,595 @@ theorem with_limits_order_preserved {V' : Type} (t : Node V') (base : Nat) :
   have hi' : i ∈ uniqueIds t := by simpa [uniqueIds, mem_sortDedup] using hi
   have hj' : j ∈ uniqueIds t := by simpa [uniqueIds, mem_sortDedup] using hj
   exact freshSigma_strictMono t base i j hi' hj' hij
+
+end AF.C12
+
+
+/-! ## where the configuration of a place comes from (`AFModel/WidthCfg.lean`)
+
+The width modifier and the gaussian limits of every parameter are looked up by the model, from the
+generated tables, in the library's order. -/
+
+namespace AF.C12
+open AF AF.WidthCfgL
+
+variable {V V' : Type}
+
+/-- **One directory: the longest configured path the key ends with answers** - whatever the order
+of the files and of the keys inside them. -/
+theorem callCfg_longest_suffix (c : Config V) (key : Str) (v : CVal V) (h : callCfg c key = some v) :
+    ∃ e ∈ c, e.val = v ∧ e.path <:+ key ∧ ∀ e' ∈ c, e'.path <:+ key → e'.path.length ≤ e.path.length := by
+  unfold callCfg at h
+  cases hf : (sortByLen c).find? (fun e => e.path.isSuffixOf key) with
+  | none => simp [hf] at h
+  | some e =>
+    simp only [hf, Option.map_some, Option.some.injEq] at h
+    obtain ⟨hm, hp, hmax⟩ := find_desc_longest _ _ (desc_sortByLen c) e hf
+    refine ⟨e, (mem_sortByLen e c).mp hm, h, List.isSuffixOf_iff_suffix.mp hp, ?_⟩
+    intro e' he' hs
+    exact hmax e' ((mem_sortByLen e' c).mpr he') (List.isSuffixOf_iff_suffix.mpr hs)
+
+/-- … and `KeyError` (`none`) exactly when no configured path is a suffix of the key -/
+theorem callCfg_none_iff (c : Config V) (key : Str) :
+    callCfg c key = none ↔ ∀ e ∈ c, ¬ e.path <:+ key := by
+  unfold callCfg
+  rw [Option.map_eq_none_iff, List.find?_eq_none]
+  constructor
+  · intro h e he hs
+    exact h e ((mem_sortByLen e c).mpr he) (List.isSuffixOf_iff_suffix.mpr hs)
+  · intro h e he hs
+    exact h e ((mem_sortByLen e c).mp he) (List.isSuffixOf_iff_suffix.mp hs)
+
+theorem eq_of_nodup_paths : ∀ (c : Config V), (c.map (·.path)).Nodup →
+    ∀ a ∈ c, ∀ b ∈ c, a.path = b.path → a = b
+  | [], _, a, ha, _, _, _ => by simp at ha
+  | y :: ys, hn, a, ha, b, hb, hab => by
+    simp only [List.map_cons, List.nodup_cons] at hn
+    rcases List.mem_cons.mp ha with rfl | ha' <;> rcases List.mem_cons.mp hb with rfl | hb'
+    · rfl
+    · exact absurd (List.mem_map.mpr ⟨b, hb', hab.symm⟩ : a.path ∈ ys.map (·.path)) hn.1
+    · exact absurd (List.mem_map.mpr ⟨a, ha', hab⟩ : b.path ∈ ys.map (·.path)) hn.1
+    · exact eq_of_nodup_paths ys hn.2 a ha' b hb' hab
+
+/-- **The answer of a directory does not depend on the order in which its files are read or its
+keys are written** (the library's order is the file system's; the translator's is sorted), as long
+as no path occurs twice. -/
+theorem callCfg_perm (c c' : Config V) (key : Str) (hn : (c.map (·.path)).Nodup) (hp : c'.Perm c) :
+    callCfg c' key = callCfg c key := by
+  cases h : callCfg c key with
+  | none =>
+    rw [callCfg_none_iff] at h ⊢
+    exact fun e he => h e (hp.mem_iff.mp he)
+  | some v =>
+    obtain ⟨e, he, hv, hs, hmax⟩ := callCfg_longest_suffix c key v h
+    cases h' : callCfg c' key with
+    | none =>
+      rw [callCfg_none_iff] at h'
+      exact absurd hs (h' e (hp.mem_iff.mpr he))
+    | some v' =>
+      obtain ⟨e', he', hv', hs', hmax'⟩ := callCfg_longest_suffix c' key v' h'
+      have he'c : e' ∈ c := hp.mem_iff.mp he'
+      have h1 := hmax e' he'c hs'
+      have h2 := hmax' e (hp.mem_iff.mpr he) hs
+      have hpath : e'.path = e.path := suffix_same_length hs' hs (Nat.le_antisymm h1 h2)
+      have := eq_of_nodup_paths c hn e' he'c e he hpath
+      rw [← hv, ← hv', this]
+
+theorem sortByLen_fixed : ∀ (c : Config V), Desc c → sortByLen c = c
+  | [], _ => rfl
+  | y :: ys, h => by
+    have hy := List.pairwise_cons.mp h
+    have ih := sortByLen_fixed ys hy.2
+    simp only [sortByLen, List.foldr_cons] at ih ⊢
+    rw [ih]
+    cases ys with
+    | nil => rfl
+    | cons z zs =>
+      have := hy.1 z (by simp)
+      simp [insertByLen, this]
+
+/-- the driver sorts every table once per request and hands the sorted table to the look-up: the
+answers are those for the table as generated -/
+theorem callCfg_presorted (c : Config V) (key : Str) : callCfg (sortByLen c) key = callCfg c key := by
+  unfold callCfg
+  rw [sortByLen_fixed _ (desc_sortByLen c)]
+
+/-- **The nearest class of the family answers** (`family(cls)`: the class itself, then its bases depth
+first), **in the first directory of the chain that has an entry for any class of the family.** -/
+theorem chainLookup_first (pre : List (Config V)) (c : Config V) (post : List (Config V))
+    (fpre : List Str) (cls : Str) (fpost : List Str) (attr leaf : Str) (v : CVal V)
+    (hdirs : ∀ c' ∈ pre, forClass c' (fpre ++ cls :: fpost) attr leaf = none)
+    (hnear : ∀ k ∈ fpre, callCfg c (keyOf k attr leaf) = none)
+    (hc : callCfg c (keyOf cls attr leaf) = some v) :
+    chainLookup (pre ++ c :: post) (fpre ++ cls :: fpost) attr leaf = some v := by
+  have hfc : forClass c (fpre ++ cls :: fpost) attr leaf = some v := by
+    unfold forClass
+    rw [findSome?_first _ fpre cls fpost hnear, hc]; rfl
+  unfold chainLookup
+  rw [findSome?_first _ pre c post hdirs, hfc]; rfl
+
+/-- conversely every answer of the chain arises that way -/
+theorem chainLookup_some (cs : List (Config V)) (fam : List Str) (attr leaf : Str) (v : CVal V)
+    (h : chainLookup cs fam attr leaf = some v) :
+    ∃ pre c post fpre cls fpost, cs = pre ++ c :: post ∧ fam = fpre ++ cls :: fpost ∧
+      callCfg c (keyOf cls attr leaf) = some v ∧
+      (∀ c' ∈ pre, forClass c' fam attr leaf = none) ∧
+      (∀ k ∈ fpre, callCfg c (keyOf k attr leaf) = none) := by
+  obtain ⟨pre, c, post, hcs, hc, hpre⟩ := findSome?_eq_some_split _ cs v h
+  obtain ⟨fpre, cls, fpost, hfam, hcls, hfpre⟩ := findSome?_eq_some_split _ fam v hc
+  exact ⟨pre, c, post, fpre, cls, fpost, hcs, hfam, hcls, hpre, hfpre⟩
+
+/-- no entry in any directory for any class of the family: `ConfigException` -/
+theorem chainLookup_none_iff (cs : List (Config V)) (fam : List Str) (attr leaf : Str) :
+    chainLookup cs fam attr leaf = none ↔ ∀ c ∈ cs, ∀ k ∈ fam, callCfg c (keyOf k attr leaf) = none := by
+  simp [chainLookup, forClass, List.findSome?_eq_none_iff]
+
+theorem mem_familyList (q : Str) : ∀ (bs : List ClsTree), q ∈ familyList bs ↔ ∃ b ∈ bs, q ∈ family b
+  | [] => by simp [familyList]
+  | b :: bs => by simp [familyList, mem_familyList q bs]
+
+/-- the family starts with the class itself and contains the family of every base: configuration
+is inherited, the class's own entry wins -/
+theorem family_head_and_bases (p : Str) (bs : List ClsTree) :
+    (family (.node p bs)).head? = some p ∧ ∀ b ∈ bs, ∀ q ∈ family b, q ∈ family (.node p bs) := by
+  refine ⟨by simp [family], ?_⟩
+  intro b hb q hq
+  simp only [family, List.mem_cons]
+  exact Or.inr ((mem_familyList q bs).mpr ⟨b, hb, hq⟩)
+
+/-- nothing configured: the default relative modifier, and the old prior's limits -/
+theorem nothing_configured_defaults (dflt : V) (cs : List (Config V)) (cls : ClsTree) (attr : Str)
+    (hw : chainLookup cs (family cls) attr leafWidth = none)
+    (hl : chainLookup cs (family cls) attr leafLimits = none) :
+    widthModifierFor dflt cs cls attr = (true, dflt) ∧ limitsFor (V := V) cs cls attr = none := by
+  simp [widthModifierFor, widthModifierFound, limitsFor, limitsFound, hw, hl]
+
+/-- a configured entry is used as it stands -/
+theorem configured_entry_used (dflt : V) (cs : List (Config V)) (cls : ClsTree) (attr : Str) (rel : Bool) (v lo hi : V)
+    (hw : chainLookup cs (family cls) attr leafWidth = some (.wm rel v))
+    (hl : chainLookup cs (family cls) attr leafLimits = some (.lim lo hi)) :
+    widthModifierFor dflt cs cls attr = (rel, v) ∧ limitsFor cs cls attr = some (lo, hi) := by
+  simp [widthModifierFor, widthModifierFound, limitsFor, limitsFound, hw, hl]
+
+/-- **Every parameter receives the prior derived from its own inferred value under the
+configuration of its own place** (looked up by the model): the i-th parameter (id order) gets
+`derive mode olds[i] (resolveCfg … places[i]) xs[i]`. -/
+theorem passed_prior_own_config (po : PassOps V) (dflt : V) (cs : List (Config V)) (mode : PassMode V)
+    (t : Node V') (olds : List (PD V)) (places : List (Place V)) (xs : List (V × V))
+    (ho : olds.length = count t) (hp : places.length = count t) (hx : xs.length = count t)
+    (i : Nat) (hi : i < count t) :
+    lookupArg (passArgsCfg po dflt cs mode t olds places xs) ((uniqueIds t)[i]'hi) =
+      some (derive po mode (olds[i]'(ho ▸ hi)) (resolveCfg dflt cs (places[i]'(hp ▸ hi)))
+        (xs[i]'(hx ▸ hi)).1 (xs[i]'(hx ▸ hi)).2) := by
+  have hc : (places.map (resolveCfg dflt cs)).length = count t := by simp [hp]
+  have := passed_prior_for_parameter po mode t olds (places.map (resolveCfg dflt cs)) xs ho hc hx i hi
+  simp only [passArgsCfg, this, List.getElem_map]
+
+/-- **The width is the place's own modifier applied to the value inferred for that place**: the
+prior's own modifier if it has one, else the configured one, else relative `dflt`; relative
+modifiers through `abs`. The limits are the configured gaussian limits, else the old prior's. -/
+theorem passed_width_own_modifier (po : PassOps V) (dflt : V) (cs : List (Config V)) (nl : Bool)
+    (old : PD V) (pl : Place V) (x y : V) :
+    let m := pl.own.getD (widthModifierFor dflt cs pl.cls pl.attr)
+    let d := derive po (.means none none nl) old (resolveCfg dflt cs pl) x y
+    d.mean = x ∧ d.sigma = (if m.1 then po.abs (po.mul m.2 x) else m.2) ∧
+    (nl = false → (d.lo, d.hi) = (limitsFor cs pl.cls pl.attr).getD (old.lo, old.hi)) := by
+  cases hown : pl.own <;> cases hl : limitsFor cs pl.cls pl.attr <;>
+    simp [derive, passWidth, resolveCfg, hown, hl] <;> intro h <;> simp [h]
+
+theorem chainLookup_mem (cs : List (Config V)) (fam : List Str) (attr leaf : Str) (v : CVal V)
+    (h : chainLookup cs fam attr leaf = some v) : ∃ c ∈ cs, ∃ e ∈ c, e.val = v := by
+  obtain ⟨pre, c, post, _, cls, _, hcs, _, hc, _, _⟩ := chainLookup_some cs fam attr leaf v h
+  obtain ⟨e, he, hv, _, _⟩ := callCfg_longest_suffix c _ v hc
+  exact ⟨c, by simp [hcs], e, he, hv⟩
+
+/-- **Widths are never negative under the looked-up configuration**: if no directory of the chain
+holds a negative absolute width (`configAbsNonneg`, evaluated on the generated tables on every run),
+the caller's absolute width and the prior's own absolute modifier are non-negative, then for *every*
+inferred value the width is non-negative. -/
+theorem resolved_width_nonneg (po : PassOps V) (le : V → V → Prop) (leB : V → V → Bool) (zero dflt : V)
+    (hle : ∀ a b, leB a b = true → le a b) (habs : ∀ x, le zero (po.abs x))
+    (cs : List (Config V)) (hcfg : configAbsNonneg leB zero cs = true)
+    (a r : Option V) (pl : Place V) (x : V)
+    (ha : ∀ w, a = some w → le zero w) (hown : ∀ w, pl.own = some (false, w) → le zero w) :
+    le zero (passWidth po a r (resolveCfg dflt cs pl) x) := by
+  apply width_nonneg po le zero habs a r _ x ha
+  intro hrel
+  cases ho : pl.own with
+  | some m =>
+    obtain ⟨rel, w⟩ := m
+    simp only [resolveCfg, ho] at hrel ⊢
+    subst hrel
+    exact hown w ho
+  | none =>
+    simp only [resolveCfg, ho] at hrel ⊢
+    unfold widthModifierFor at hrel ⊢
+    cases hf : widthModifierFound cs pl.cls pl.attr with
+    | missing => simp [hf] at hrel
+    | malformed => simp [hf] at hrel
+    | found m =>
+      obtain ⟨rel, w⟩ := m
+      simp only [hf] at hrel ⊢
+      subst hrel
+      -- the entry comes from a directory of the chain
+      unfold widthModifierFound at hf
+      cases hc : chainLookup cs (family pl.cls) pl.attr leafWidth with
+      | none => simp [hc] at hf
+      | some cv =>
+        cases cv with
+        | wm rel' w' =>
+          simp only [hc, Found.found.injEq, Prod.mk.injEq] at hf
+          obtain ⟨c, hcm, e, hem, hev⟩ := chainLookup_mem cs _ _ _ _ hc
+          have h1 := (List.all_eq_true.mp hcfg) c hcm
+          have h2 := (List.all_eq_true.mp h1) e hem
+          rw [hev, hf.1] at h2
+          simp only at h2
+          rw [← hf.2]
+          exact hle _ _ h2
+        | lim _ _ => simp [hc] at hf
+        | other => simp [hc] at hf
+
+/-! ### over an ordered field: the exact guards -/
+
+section Field
+variable {K : Type} [Field K] [LinearOrder K] [IsStrictOrderedRing K]
+
+/-- real arithmetic (the two infinities are never used by a width) -/
+def fieldPass (ninf pinf : K) : PassOps K :=
+  { add := (· + ·), sub := (· - ·), mul := (· * ·), half := (· / 2), abs := fun x => |x|,
+    max := max, min := min, negInf := ninf, posInf := pinf }
+
+/-- **No negative width for any inferred value, of any sign and magnitude, in every passing mode**
+over an ordered field - with the exact guards: a width given by the caller (`a`) or by an absolute
+modifier is used as it stands, so it is non-negative iff the given number is; a relative width
+(`r`, relative modifier) is `|r·x|`, non-negative for *every* `r` and `x`; `with_limits` on a Gaussian
+prior gives `upper − lower`, non-negative iff the limits are ordered; bounded uniform priors are
+non-empty iff `b ≥ 0`. -/
+theorem width_nonneg_ordered_field (ninf pinf : K) (old : PD K) (cfg : PCfg K) (x y : K) :
+    (∀ r nl, 0 ≤ (derive (fieldPass ninf pinf) (.means none (some r) nl) old cfg x y).sigma) ∧
+    (∀ a r nl, 0 ≤ (derive (fieldPass ninf pinf) (.means (some a) r nl) old cfg x y).sigma ↔ 0 ≤ a) ∧
+    (∀ nl, cfg.relative = true → 0 ≤ (derive (fieldPass ninf pinf) (.means none none nl) old cfg x y).sigma) ∧
+    (∀ nl, cfg.relative = false →
+      (0 ≤ (derive (fieldPass ninf pinf) (.means none none nl) old cfg x y).sigma ↔ 0 ≤ cfg.value)) ∧
+    (old.kind = "Gaussian" → (0 ≤ (derive (fieldPass ninf pinf) .withLimits old cfg x y).sigma ↔ x ≤ y)) ∧
+    (∀ b, (derive (fieldPass ninf pinf) (.uniform b) old cfg x y).lo ≤
+      (derive (fieldPass ninf pinf) (.uniform b) old cfg x y).hi ↔ 0 ≤ b) := by
+  refine ⟨?_, ?_, ?_, ?_, ?_, ?_⟩
+  · intro r nl; simp only [derive, passWidth, fieldPass]; exact abs_nonneg _
+  · intro a r nl; simp [derive, passWidth]
+  · intro nl h; simp only [derive, passWidth, fieldPass, h, if_true]; exact abs_nonneg _
+  · intro nl h; simp [derive, passWidth, h]
+  · intro h; simp [derive, h, fieldPass]
+  · intro b
+    simp only [derive, fieldPass]
+    constructor <;> intro h <;> linarith
+
+/-- the relative width is `|r|·|x|`: it scales with the magnitude of the inferred value and ignores
+both signs -/
+theorem relative_width_abs (ninf pinf : K) (r x : K) (cfg : PCfg K) :
+    passWidth (fieldPass ninf pinf) none (some r) cfg x = |r| * |x| := by
+  simp [passWidth, fieldPass, abs_mul]
+
+end Field
+
+/-! ### non-vacuity -/
+
+/-- two directories; the class `u.Q` inherits from `v.P`, whose attribute `a` is configured in the
+second directory only -/
+def dirA : Config Int := [⟨['Q', '.', 'b', '.', 'w'], .wm false 7⟩, ⟨['b', '.', 'w'], .wm false 1⟩]
+def dirB : Config Int := [⟨['P', '.', 'a', '.', 'w'], .wm true 3⟩, ⟨['a', '.', 'w'], .other⟩]
+def clsQ : ClsTree := .node ['u', '.', 'Q'] [.node ['o'] [], .node ['v', '.', 'P'] [.node ['o'] []]]
+
+example : family clsQ = [['u', '.', 'Q'], ['o'], ['v', '.', 'P'], ['o']] := by decide
+/-- longest path wins inside a directory: `u.Q.b.w` ends with `Q.b.w` and with `b.w` -/
+example : callCfg dirA ['u', '.', 'Q', '.', 'b', '.', 'w'] = some (.wm false 7) := by decide
+example : callCfg dirA.reverse ['u', '.', 'Q', '.', 'b', '.', 'w'] = some (.wm false 7) := by decide
+/-- inherited: nothing for `u.Q.a.w`, `o.a.w` in `dirA`; in `dirB` `u.Q.a.w` ends with `a.w`: the
+nearest class answers with the (malformed) shorter entry - plain string suffixes -/
+example : chainLookup [dirA, dirB] (family clsQ) ['a'] ['w'] = some .other := by decide
+example : chainLookup [dirA, dirB] (family (.node ['v', '.', 'P'] [])) ['a'] ['w'] = some (.wm true 3) := by decide
+example : chainLookup [dirA, dirB] (family clsQ) ['z'] ['w'] = none := by decide
+/-- hypotheses of `resolved_width_nonneg` hold for these directories -/
+example : configAbsNonneg (fun a b => decide (a ≤ b)) (0 : Int) [dirA, dirB] = true := by decide
+
+end AF.C12
+
+
+/-! ## the way through a result (`AFModel/PassRoutes.lean`): `Result.model`, `model_absolute`,
+`model_relative`, `model_bounded` -/
+
+namespace AF.C12
+open AF AF.PassRoutesL
+
+variable {V V' : Type}
+
+/-- **A value stored under a place of parameter i comes back at position i**: if every key is a
+place of its own parameter and of no other parameter, reading the path-keyed sample back through
+the groups of places returns the stored vector. -/
+theorem vectorOfKwargs_own (keys : List Path) (groups : List (List Path)) (v : List V)
+    (hlen : keys.length = groups.length) (hv : v.length = keys.length)
+    (hown : ∀ i (hi : i < keys.length), keys[i] ∈ groups[i]'(hlen ▸ hi))
+    (hother : ∀ i j (hi : i < keys.length) (hj : j < groups.length), i ≠ j → keys[i] ∉ groups[j]) :
+    vectorOfKwargs (keys.zip v) groups = v.map some := by
+  have hnd : keys.Nodup := by
+    unfold List.Nodup
+    rw [List.pairwise_iff_getElem]
+    intro i j hi hj hij heq
+    exact hother i j hi (hlen ▸ hj) (by omega) (heq ▸ hown j hj)
+  apply List.ext_getElem
+  · simp [vectorOfKwargs, hlen, hv]
+  · intro j h1 h2
+    have hjg : j < groups.length := by simpa [vectorOfKwargs] using h1
+    have hjk : j < keys.length := hlen ▸ hjg
+    have hjv : j < v.length := hv ▸ hjk
+    simp only [vectorOfKwargs, List.getElem_map]
+    apply findSome?_const
+    · intro p hp
+      cases hl : lookupPath (keys.zip v) p with
+      | none => exact Or.inl rfl
+      | some x =>
+        right
+        have hmem := lookupPath_mem keys v p x hl
+        obtain ⟨i, hi, hip⟩ := List.getElem_of_mem hmem
+        have hij : i = j := by
+          by_contra hne
+          exact hother i j hi hjg hne (hip ▸ hp)
+        subst hij
+        rw [← hip, lookupPath_zip_get keys v hnd hv.symm i hi hjv] at hl
+        exact hl.symm
+    · exact ⟨keys[j], hown j hjk, lookupPath_zip_get keys v hnd hv.symm j hjk hjv⟩
+
+/-- the decidable check the driver evaluates on every composition gives the two hypotheses -/
+theorem keysOwnGroups_spec (keys : List Path) (groups : List (List Path)) (h : keysOwnGroups keys groups = true) :
+    ∃ hlen : keys.length = groups.length,
+      (∀ i (hi : i < keys.length), keys[i] ∈ groups[i]'(hlen ▸ hi)) ∧
+      (∀ i j (hi : i < keys.length) (hj : j < groups.length), i ≠ j → keys[i] ∉ groups[j]) := by
+  simp only [keysOwnGroups, Bool.and_eq_true, beq_iff_eq, List.all_eq_true, List.mem_range] at h
+  obtain ⟨hlen, hall⟩ := h
+  refine ⟨hlen, ?_, ?_⟩
+  · intro i hi
+    have := hall i hi i (hlen ▸ hi)
+    simpa [List.getElem?_eq_getElem hi, List.getElem?_eq_getElem (hlen ▸ hi : i < groups.length)] using this
+  · intro i j hi hj hne
+    have := hall i hi j hj
+    simpa [List.getElem?_eq_getElem hi, List.getElem?_eq_getElem hj, hne] using this
+
+/-- **`Result.model` & co. hand prior passing the inferred vector itself, in parameter order**
+(for every composition whose sample keys are places of their own parameter only - evaluated by the
+driver on every generated composition). -/
+theorem result_vector_roundtrip (t : Node V') (v : List V) (hv : v.length = (uniquePaths t).length)
+    (hown : keysOwnGroups (uniquePaths t) (allPaths t) = true) :
+    resultVector t v = v.map some := by
+  obtain ⟨hlen, h1, h2⟩ := keysOwnGroups_spec _ _ hown
+  exact vectorOfKwargs_own (uniquePaths t) (allPaths t) v hlen hv h1 h2
+
+/-- hence the arguments built through a result are those built from the vector directly: each
+of the theorems above about `passArgsCfg` applies to `Result.model`, `model_absolute`, `model_relative`
+(median vector) and `model_bounded` (maximum likelihood vector) -/
+theorem result_route_same_arguments (po : PassOps V) (dflt z : V) (cs : List (Config V)) (mode : PassMode V)
+    (t : Node V') (olds : List (PD V)) (places : List (Place V)) (v : List V)
+    (hv : v.length = (uniquePaths t).length) (hown : keysOwnGroups (uniquePaths t) (allPaths t) = true) :
+    passArgsCfg po dflt cs mode t olds places ((resultVector t v).map (fun o => (o.getD z, z))) =
+      passArgsCfg po dflt cs mode t olds places (v.map (fun x => (x, z))) := by
+  rw [result_vector_roundtrip t v hv hown, List.map_map]
+  rfl
+
+/-- non-vacuity: the shared parameter 7 has two places; its key is its last place -/
+example : uniquePaths t₀ = [["g", "b"], ["h"]] ∧ allPaths t₀ = [[["g", "b"]], [["g", "a"], ["h"]]] ∧
+    keysOwnGroups (uniquePaths t₀) (allPaths t₀) = true ∧
+    resultVector t₀ [(-4 : Int), 6] = [some (-4), some 6] := by decide
+
+end AF.C12
+
+
+/-! ## which class and attribute name a parameter is configured by (`AFModel/PassPlace.lean`) -/
+
+namespace AF.C12
+open AF
+
+variable {V V' : Type}
+
+theorem placesFromTree_length (classes : List (String × ClsTree)) (t : Node V') (owns : List (Option (Bool × V)))
+    (hown : owns.length = count t) : (placesFromTree classes t owns).length = count t := by
+  simp [placesFromTree, placeKeys, count, hown]
+
+/-- the place of the i-th parameter: the class `prior_class_dict` ends up with (last write), the name
+of its last place (the collection's name for a position), its own modifier -/
+theorem place_of_parameter (classes : List (String × ClsTree)) (t : Node V') (owns : List (Option (Bool × V)))
+    (hown : owns.length = count t) (i : Nat) (hi : i < count t) :
+    (placesFromTree classes t owns)[i]'(by rw [placesFromTree_length classes t owns hown]; exact hi) =
+      { cls := (((classOfId t ((uniqueIds t)[i]'hi)).bind (fun c => classes.lookup c)).getD (.node [] [])),
+        attr := (placeName ((lastPlace (pathPriors t) ((uniqueIds t)[i]'hi)).getD [])).toList,
+        own := owns[i]'(hown ▸ hi) } := by
+  simp only [placesFromTree, placeKeys, List.getElem_map, List.getElem_zip]
+  rfl
+
+/-- **Every parameter receives the prior derived from its own inferred value under the configuration
+the model looks up for the class and attribute name it derives from the composition** - nothing about
+the configuration is handed over by the harness any more. -/
+theorem passed_prior_place_config (po : PassOps V) (dflt : V) (cs : List (Config V)) (mode : PassMode V)
+    (classes : List (String × ClsTree)) (t : Node V') (olds : List (PD V)) (owns : List (Option (Bool × V)))
+    (xs : List (V × V)) (ho : olds.length = count t) (hown : owns.length = count t) (hx : xs.length = count t)
+    (i : Nat) (hi : i < count t) :
+    lookupArg (passArgsCfg po dflt cs mode t olds (placesFromTree classes t owns) xs) ((uniqueIds t)[i]'hi) =
+      some (derive po mode (olds[i]'(ho ▸ hi))
+        (resolveCfg dflt cs ((placesFromTree classes t owns)[i]'(by
+          rw [placesFromTree_length classes t owns hown]; exact hi)))
+        (xs[i]'(hx ▸ hi)).1 (xs[i]'(hx ▸ hi)).2) :=
+  passed_prior_own_config po dflt cs mode t olds _ xs ho (placesFromTree_length classes t owns hown) hx i hi
+
+theorem lastWrite_const (l : List (Nat × String)) (c : String) (id : Nat)
+    (hall : ∀ e ∈ l, e.2 = c) (hex : ∃ e ∈ l, e.1 = id) :
+    ((l.reverse.find? (·.1 == id)).map (·.2)) = some c := by
+  cases h : l.reverse.find? (·.1 == id) with
+  | none =>
+    obtain ⟨e, he, hid⟩ := hex
+    have := List.find?_eq_none.mp h e (List.mem_reverse.mpr he)
+    simp [hid] at this
+  | some e =>
+    have he : e ∈ l := List.mem_reverse.mp (List.mem_of_find?_eq_some h)
+    simp [hall e he]
+
+theorem lastWrite_isSome (l : List (Nat × String)) (id : Nat) (hex : ∃ e ∈ l, e.1 = id) :
+    ((l.reverse.find? (·.1 == id)).map (·.2)).isSome = true := by
+  cases h : l.reverse.find? (·.1 == id) with
+  | none =>
+    obtain ⟨e, he, hid⟩ := hex
+    have := List.find?_eq_none.mp h e (List.mem_reverse.mpr he)
+    simp [hid] at this
+  | some e => simp
+
+/-- a component whose attributes hold no further components: every parameter below it (direct,
+in a tuple) is configured by the component's own class -/
+theorem classOfId_flat_model (cls : String) (ctor : List String) (attrs : List (String × Node V'))
+    (hflat : classDictKids attrs = []) (id : Nat) (hid : id ∈ (walkAttrs attrs).map (·.2)) :
+    classOfId (.model cls ctor attrs) id = some cls := by
+  unfold classOfId
+  simp only [classDict, hflat, List.append_nil]
+  apply lastWrite_const
+  · intro e he
+    obtain ⟨w, _, rfl⟩ := List.mem_map.mp he
+    rfl
+  · obtain ⟨w, hw, rfl⟩ := List.mem_map.mp hid
+    exact ⟨(w.2, cls), List.mem_map.mpr ⟨w, hw, rfl⟩, rfl⟩
+
+/-- under a component every parameter has a class (no `KeyError`), whatever is nested below -/
+theorem classOfId_isSome_model (cls : String) (ctor : List String) (attrs : List (String × Node V'))
+    (id : Nat) (hid : id ∈ (walkAttrs attrs).map (·.2)) :
+    (classOfId (.model cls ctor attrs) id).isSome = true := by
+  unfold classOfId
+  apply lastWrite_isSome
+  obtain ⟨w, hw, rfl⟩ := List.mem_map.mp hid
+  exact ⟨(w.2, cls), by simp only [classDict]; exact List.mem_append_left _ (List.mem_map.mpr ⟨w, hw, rfl⟩), rfl⟩
+
+/-- a parameter a collection holds directly is configured as `ModelInstance`, even when a component
+of the collection shares it (the collection writes last) -/
+theorem classOfId_collection_direct (attrs : List (String × Node V')) (id : Nat) (hid : id ∈ directPriorIds attrs) :
+    classOfId (.coll attrs) id = some "ModelInstance" := by
+  unfold classOfId
+  simp only [classDict, List.reverse_append, List.find?_append]
+  have := lastWrite_const ((directPriorIds attrs).map (fun i => (i, "ModelInstance"))) "ModelInstance" id
+    (by intro e he; obtain ⟨w, _, rfl⟩ := List.mem_map.mp he; rfl)
+    ⟨(id, "ModelInstance"), List.mem_map.mpr ⟨id, hid, rfl⟩, rfl⟩
+  cases h : ((directPriorIds attrs).map (fun i => (i, "ModelInstance"))).reverse.find? (·.1 == id) with
+  | none => simp [h] at this
+  | some e => simp [h] at this ⊢; exact this
+
+theorem placeName_position (pre : Path) (m n : String) :
+    placeName (pre ++ [m, n]) = if isDigits n then m else n := by
+  simp [placeName]
+
+/-- non-vacuity: parameter 7 is `g.a` (class P2) and the collection's own `h`: the collection writes
+last; parameter 3 is `g.b` only -/
+example : (placeKeys t₀).map (·.1) = [some "P2", some "ModelInstance"] := by decide
+example : classDictKids (V := Int) [("a", .prior 7), ("b", .prior 3)] = [] := by decide
+-- tests (compiler-evaluated; string functions do not reduce in the kernel)
+#guard placeKeys t₀ == [(some "P2", "b"), (some "ModelInstance", "h")]
+#guard placeName ["galaxies", "0"] == "galaxies" && placeName ["0"] == "0" && placeName ["g", "pos", "pos_0"] == "pos_0"
+
+end AF.C12
+
+
+/-! ## the result route without a run-time condition: distinct paths suffice -/
+
+namespace AF.C12
+open AF AF.PassRoutesL
+
+variable {V V' : Type}
+
+theorem filterMap_eq_map_of_some {α β} (f : α → Option β) (g : α → β) : ∀ (l : List α),
+    (∀ a ∈ l, f a = some (g a)) → l.filterMap f = l.map g
+  | [], _ => rfl
+  | a :: l, h => by
+    have ha := h a (by simp)
+    simp only [List.filterMap_cons, ha, List.map_cons]
+    rw [filterMap_eq_map_of_some f g l (fun b hb => h b (List.mem_cons_of_mem _ hb))]
+
+theorem eq_of_nodup_fst {α β} : ∀ (w : List (α × β)), (w.map (·.1)).Nodup →
+    ∀ a ∈ w, ∀ b ∈ w, a.1 = b.1 → a = b
+  | [], _, a, ha, _, _, _ => by simp at ha
+  | y :: ys, hn, a, ha, b, hb, hab => by
+    simp only [List.map_cons, List.nodup_cons] at hn
+    rcases List.mem_cons.mp ha with rfl | ha' <;> rcases List.mem_cons.mp hb with rfl | hb'
+    · rfl
+    · exact absurd (List.mem_map.mpr ⟨b, hb', hab.symm⟩ : a.1 ∈ ys.map (·.1)) hn.1
+    · exact absurd (List.mem_map.mpr ⟨a, ha', hab⟩ : b.1 ∈ ys.map (·.1)) hn.1
+    · exact eq_of_nodup_fst ys hn.2 a ha' b hb' hab
+
+theorem nodup_getElem_inj {α} (l : List α) (hn : l.Nodup) (i j : Nat) (hi : i < l.length) (hj : j < l.length)
+    (h : l[i] = l[j]) : i = j := by
+  unfold List.Nodup at hn
+  rw [List.pairwise_iff_getElem] at hn
+  by_contra hne
+  rcases Nat.lt_or_gt_of_ne hne with hlt | hgt
+  · exact hn i j hi hj hlt h
+  · exact hn j i hj hi hgt h.symm
+
+theorem lastPlace_some_mem (w : List (Path × Nat)) (id : Nat) (h : ∃ p, (p, id) ∈ w) :
+    ∃ p, lastPlace w id = some p ∧ (p, id) ∈ w := by
+  unfold lastPlace
+  cases hf : w.reverse.find? (·.2 == id) with
+  | none =>
+    obtain ⟨p, hp⟩ := h
+    have := List.find?_eq_none.mp hf (p, id) (List.mem_reverse.mpr hp)
+    simp at this
+  | some e =>
+    have hm : e ∈ w := List.mem_reverse.mp (List.mem_of_find?_eq_some hf)
+    have he : e.2 = id := by simpa using List.find?_some hf
+    exact ⟨e.1, rfl, by rw [← he]; exact hm⟩
+
+theorem mem_placesOf (w : List (Path × Nat)) (id : Nat) (p : Path) : p ∈ placesOf w id ↔ (p, id) ∈ w := by
+  simp only [placesOf, List.mem_map, List.mem_filter]
+  constructor
+  · rintro ⟨e, ⟨he, hid⟩, rfl⟩
+    have : e.2 = id := by simpa using hid
+    rw [← this]; exact he
+  · intro h
+    exact ⟨(p, id), ⟨h, by simp⟩, rfl⟩
+
+/-- **`Result.model` & co. hand prior passing the inferred vector itself, in parameter order, for
+every composition in which no two places have the same path** (true of every Python object tree:
+attribute names and collection keys are dictionary keys). -/
+theorem result_vector_roundtrip_distinct_paths (t : Node V') (v : List V) (hv : v.length = count t)
+    (hpaths : ((walk t).map (·.1)).Nodup) :
+    resultVector t v = v.map some := by
+  -- every parameter has a last place, and it is one of its places
+  have hperm := perm_sortById (walk t)
+  have hocc : ∀ id ∈ uniqueIds t, ∃ p, (p, id) ∈ pathPriors t := by
+    intro id hid
+    obtain ⟨e, he, rfl⟩ := List.mem_map.mp (mem_sortDedup.mp hid)
+    exact ⟨e.1, hperm.mem_iff.mpr he⟩
+  have hnd : (uniqueIds t).Nodup := nodup_of_sorted (sorted_sortDedup _)
+  have hpp : ((pathPriors t).map (·.1)).Nodup := (hperm.map _).nodup_iff.mpr hpaths
+  let g : Nat → Path := fun id => (lastPlace (pathPriors t) id).getD []
+  have hg : ∀ id ∈ uniqueIds t, lastPlace (pathPriors t) id = some (g id) ∧ (g id, id) ∈ pathPriors t := by
+    intro id hid
+    obtain ⟨p, hp, hm⟩ := lastPlace_some_mem (pathPriors t) id (hocc id hid)
+    simp only [g, hp, Option.getD_some]
+    exact ⟨trivial, hm⟩
+  have hkeys : uniquePaths t = (uniqueIds t).map g :=
+    filterMap_eq_map_of_some _ g _ (fun id hid => (hg id hid).1)
+  unfold resultVector kwargsOfVector
+  rw [hkeys]
+  have hlen : ((uniqueIds t).map g).length = (allPaths t).length := by simp [allPaths]
+  refine vectorOfKwargs_own _ _ v hlen (by simp [hv, count]) ?_ ?_
+  · intro i hi
+    have hi' : i < (uniqueIds t).length := by simpa using hi
+    simp only [allPaths, List.getElem_map]
+    exact (mem_placesOf _ _ _).mpr (hg _ (List.getElem_mem hi')).2
+  · intro i j hi hj hne hmem
+    have hi' : i < (uniqueIds t).length := by simpa using hi
+    have hj' : j < (uniqueIds t).length := by simpa [allPaths] using hj
+    simp only [allPaths, List.getElem_map] at hmem
+    have h1 := (hg _ (List.getElem_mem hi')).2
+    have h2 := (mem_placesOf _ _ _).mp hmem
+    -- two entries with the same path are the same entry
+    have : ((uniqueIds t)[i]'hi') = ((uniqueIds t)[j]'hj') := by
+      have hinj := eq_of_nodup_fst _ hpp _ h1 _ h2 rfl
+      exact (Prod.mk.inj hinj).2
+    exact hne (nodup_getElem_inj _ hnd i j hi' hj' this)
+
+/-- non-vacuity: the places of `t₀` (a shared parameter among them) have distinct paths -/
+example : ((walk t₀).map (·.1)).Nodup := by decide
 
 end AF.C12
